@@ -32,6 +32,7 @@ import (
 	"github.com/nginx/kubernetes-ingress/internal/verifh/vh"
 	conf_v1 "github.com/nginx/kubernetes-ingress/pkg/apis/configuration/v1"
 	"github.com/nginx/kubernetes-ingress/pkg/apis/dos/v1beta1"
+	dosvalidation "github.com/nginx/kubernetes-ingress/pkg/apis/dos/validation"
 	api_v1 "k8s.io/api/core/v1"
 	discovery_v1 "k8s.io/api/discovery/v1"
 	networking "k8s.io/api/networking/v1"
@@ -84,8 +85,11 @@ type ApSpec struct {
 }
 
 type DosSpec struct {
-	Key   string `json:"key"`
-	Valid bool   `json:"valid"`
+	Key    string `json:"key"`
+	Valid  bool   `json:"valid"`
+	Pol    string `json:"pol,omitempty"`    // Spec.ApDosPolicy: "name" or "ns/name"
+	HasLog bool   `json:"haslog,omitempty"` // Spec.DosSecurityLog != nil
+	Log    string `json:"log,omitempty"`    // Spec.DosSecurityLog.ApDosLogConf
 }
 
 type Cluster struct {
@@ -94,6 +98,7 @@ type Cluster struct {
 	Policies []PolicySpec `json:"policies"`
 	Ap       []ApSpec     `json:"ap"`
 	Dos      []DosSpec    `json:"dos"`
+	DosHops  []ApSpec     `json:"doshops"` // kind dospolicy | doslogconf: APDosPolicy / APDosLogConf objects
 }
 
 type PolRef struct {
@@ -237,6 +242,7 @@ type Obs struct {
 	Lookups    []Dep             `json:"lookups"`
 	Rev        []Rev             `json:"rev"`
 	Pols       []PolObs          `json:"pols"`
+	DosProt    []map[string]any  `json:"dosprot"` // the stored DosProtectedResources as the model sees them
 	Events     []EvObs           `json:"events"`
 	Multi      []Obs             `json:"multi,omitempty"` // class multi: one entry per served resource
 	Kind       string            `json:"kind,omitempty"`  // class multi: ing | vs | ts
@@ -254,9 +260,11 @@ var (
 	apNames   = []string{"app-a", "app-b"}
 	logNames  = []string{"log-a", "log-b"}
 	dosNames  = []string{"dos-a", "dos-b"}
+	dpolNames = []string{"dpol-a", "dpol-b"}
+	dlogNames = []string{"dlog-a", "dlog-b"}
 	kindNames = map[string][]string{"secret": secNames, "service": svcNames, "endpoints": svcNames, "policy": polNames,
-		"appolicy": apNames, "aplogconf": logNames, "dos": dosNames}
-	kinds = []string{"secret", "service", "endpoints", "policy", "appolicy", "aplogconf", "dos"}
+		"appolicy": apNames, "aplogconf": logNames, "dos": dosNames, "dospolicy": dpolNames, "doslogconf": dlogNames}
+	kinds = []string{"secret", "service", "endpoints", "policy", "appolicy", "aplogconf", "dos", "dospolicy", "doslogconf"}
 )
 
 const (
@@ -486,7 +494,36 @@ func mkDos(d DosSpec, gen int) *v1beta1.DosProtectedResource {
 	if !d.Valid {
 		r.Spec.Name = "" // rejected by the real validator
 	}
+	r.Spec.ApDosPolicy = d.Pol
+	if d.HasLog {
+		r.Spec.DosSecurityLog = &v1beta1.DosSecurityLog{Enable: true, ApDosLogConf: d.Log, DosLogDest: "stderr"}
+	}
 	return r
+}
+
+// mkDosHop: an APDosPolicy (valid: has a spec) or an APDosLogConf (valid: has spec.filter)
+func mkDosHop(kind, key string, ok bool, gen int) *unstructured.Unstructured {
+	ns, name := splitKey(key)
+	u := &unstructured.Unstructured{Object: map[string]interface{}{"apiVersion": "appprotectdos.f5.com/v1beta1"}}
+	if kind == "dospolicy" {
+		u.SetKind("APDosPolicy")
+		if ok {
+			u.Object["spec"] = map[string]interface{}{"mitigation_mode": "standard", "gen": int64(gen)}
+		} else {
+			u.Object["broken"] = int64(gen)
+		}
+	} else {
+		u.SetKind("APDosLogConf")
+		if ok {
+			u.Object["spec"] = map[string]interface{}{"filter": map[string]interface{}{"traffic-mitigation-stats": "all"}, "gen": int64(gen)}
+		} else {
+			u.Object["spec"] = map[string]interface{}{"content": map[string]interface{}{"format": "splunk"}, "gen": int64(gen)}
+		}
+	}
+	u.SetNamespace(ns)
+	u.SetName(name)
+	u.SetResourceVersion(fmt.Sprint(gen))
+	return u
 }
 
 func mkUpstream(u Ups) conf_v1.Upstream {
@@ -697,7 +734,25 @@ func genCluster(r *vh.Rng, e Env) Cluster {
 		}
 		for _, n := range dosNames {
 			if r.Chance(4, 5) {
-				c.Dos = append(c.Dos, DosSpec{Key: ns + "/" + n, Valid: r.Chance(5, 6)})
+				d := DosSpec{Key: ns + "/" + n, Valid: r.Chance(5, 6)}
+				if r.Chance(2, 3) {
+					d.Pol = qref(r, dpolNames)
+				}
+				if r.Chance(1, 2) {
+					d.HasLog = true
+					d.Log = qref(r, dlogNames)
+				}
+				c.Dos = append(c.Dos, d)
+			}
+		}
+		for _, n := range dpolNames {
+			if r.Chance(5, 6) {
+				c.DosHops = append(c.DosHops, ApSpec{Kind: "dospolicy", Key: ns + "/" + n, OK: r.Chance(5, 6)})
+			}
+		}
+		for _, n := range dlogNames {
+			if r.Chance(5, 6) {
+				c.DosHops = append(c.DosHops, ApSpec{Kind: "doslogconf", Key: ns + "/" + n, OK: r.Chance(5, 6)})
 			}
 		}
 	}
@@ -996,12 +1051,13 @@ type world struct {
 	slice map[string]bool
 	pols  map[string]PolicySpec
 	dos   map[string]DosSpec
+	dhop  map[Dep]ApSpec // dospolicy | doslogconf
 	gen   int
 	mgr   *recMgr // event-level world only
 }
 
 func build(c *Case) *world {
-	w := &world{c: c, rec: &recorder{}, svc: map[string]SvcSpec{}, slice: map[string]bool{}, pols: map[string]PolicySpec{}, dos: map[string]DosSpec{}}
+	w := &world{c: c, rec: &recorder{}, svc: map[string]SvcSpec{}, slice: map[string]bool{}, pols: map[string]PolicySpec{}, dos: map[string]DosSpec{}, dhop: map[Dep]ApSpec{}}
 	w.sec = &fakeSecrets{m: map[string]*secEntry{}, rec: w.rec}
 	w.ap = &fakeAP{m: map[Dep]*secEntry{}, rec: w.rec}
 	w.v = k8s.NewVerifC15(k8s.VerifC15Opts{Plus: c.Env.Plus, AppProtect: c.Env.AP, Dos: c.Env.Dos, SecretStore: w.sec, AppProtectConf: w.ap,
@@ -1023,11 +1079,23 @@ func build(c *Case) *world {
 	for _, a := range c.Cluster.Ap {
 		w.ap.m[Dep{a.Kind, a.Key}] = &secEntry{ok: a.OK, ver: 1}
 	}
+	for _, h := range c.Cluster.DosHops {
+		w.dhop[Dep{h.Kind, h.Key}] = h
+		w.setDosHop(h.Kind, h.Key, mkDosHop(h.Kind, h.Key, h.OK, 0))
+	}
 	for _, d := range c.Cluster.Dos {
 		w.dos[d.Key] = d
 		w.v.AddDosProtected(mkDos(d, 0))
 	}
 	return w
+}
+
+func (w *world) setDosHop(kind, key string, obj *unstructured.Unstructured) {
+	if kind == "dospolicy" {
+		w.v.SetDosPolicy(key, obj)
+	} else {
+		w.v.SetDosLogConf(key, obj)
+	}
 }
 
 func (w *world) addSlice(key string, gen int) {
@@ -1188,14 +1256,35 @@ func (w *world) mutate(kind, key, how string) func() {
 			w.v.DeleteDosProtected(mkDos(spec, 0))
 		case "change":
 			w.v.AddDosProtected(mkDos(spec, g))
-		case "add", "repair":
+		case "add":
 			w.v.AddDosProtected(mkDos(DosSpec{Key: key, Valid: true}, g))
+		case "repair":
+			fixed := spec
+			fixed.Valid = true
+			w.v.AddDosProtected(mkDos(fixed, g))
 		}
 		return func() {
 			if exists {
 				w.v.AddDosProtected(mkDos(spec, 0))
 			} else {
 				w.v.DeleteDosProtected(mkDos(DosSpec{Key: key}, 0))
+			}
+		}
+	case "dospolicy", "doslogconf":
+		spec, exists := w.dhop[Dep{kind, key}]
+		switch how {
+		case "delete":
+			w.setDosHop(kind, key, nil)
+		case "change":
+			w.setDosHop(kind, key, mkDosHop(kind, key, spec.OK, g))
+		case "add", "repair":
+			w.setDosHop(kind, key, mkDosHop(kind, key, true, g))
+		}
+		return func() {
+			if exists {
+				w.setDosHop(kind, key, mkDosHop(kind, key, spec.OK, 0))
+			} else {
+				w.setDosHop(kind, key, nil)
 			}
 		}
 	}
@@ -1218,6 +1307,9 @@ func (w *world) exists(kind, key string) bool {
 		return ok
 	case "dos":
 		_, ok := w.dos[key]
+		return ok
+	case "dospolicy", "doslogconf":
+		_, ok := w.dhop[Dep{kind, key}]
 		return ok
 	}
 	return false
@@ -1344,6 +1436,23 @@ func analyze(w *world, c *Case, res *k8s.VerifC15Resource, kind string) (obs Obs
 		obs.Pols = append(obs.Pols, PolObs{Key: k, Valid: valid, ClassOK: classOK, Found: contains(w.v.Find("policy", ns, name), res.Key), Skel: skPolicy(pobj)})
 	}
 
+	// DosProtectedResources: reference fields read off the real objects, verdict of the real validator
+	obs.DosProt = []map[string]any{}
+	dosKeys := []string{}
+	for k := range w.dos {
+		dosKeys = append(dosKeys, k)
+	}
+	sort.Strings(dosKeys)
+	for _, k := range dosKeys {
+		d := mkDos(w.dos[k], 0)
+		var lg any
+		if d.Spec.DosSecurityLog != nil {
+			lg = d.Spec.DosSecurityLog.ApDosLogConf
+		}
+		obs.DosProt = append(obs.DosProt, map[string]any{"ns": d.Namespace, "name": d.Name, "valid": dosvalidation.ValidateDosProtectedResource(d) == nil,
+			"policy": d.Spec.ApDosPolicy, "logconf": lg})
+	}
+
 	// universe: the pool, plus whatever was looked up outside it
 	type obj struct{ kind, key string }
 	var uni []obj
@@ -1372,7 +1481,7 @@ func analyze(w *world, c *Case, res *k8s.VerifC15Resource, kind string) (obs Obs
 		if rv.Exists {
 			tries = []string{"delete", "change"}
 			switch o.kind {
-			case "secret", "policy", "appolicy", "aplogconf", "dos":
+			case "secret", "policy", "appolicy", "aplogconf", "dos", "dospolicy", "doslogconf":
 				tries = append(tries, "repair") // an object that is there but unusable: make it usable
 			}
 		}
@@ -1399,6 +1508,9 @@ func analyze(w *world, c *Case, res *k8s.VerifC15Resource, kind string) (obs Obs
 		}
 		rv.Direct = contains(w.v.Find(what, ns, name), res.Key)
 		rv.Via = w.v.PoliciesFor(o.kind, ns, name)
+		if o.kind == "dospolicy" || o.kind == "doslogconf" {
+			rv.Via = w.v.DosProtectedFor(o.kind, o.key) // the hop inside appprotectdos.Configuration
+		}
 		obs.Rev = append(obs.Rev, rv)
 	}
 	obs.Events = []EvObs{}
@@ -1667,7 +1779,7 @@ func buildFull(c *Case) (*world, error) {
 	if err != nil {
 		return nil, err
 	}
-	w := &world{c: c, rec: &recorder{}, svc: map[string]SvcSpec{}, slice: map[string]bool{}, pols: map[string]PolicySpec{}, dos: map[string]DosSpec{}}
+	w := &world{c: c, rec: &recorder{}, svc: map[string]SvcSpec{}, slice: map[string]bool{}, pols: map[string]PolicySpec{}, dos: map[string]DosSpec{}, dhop: map[Dep]ApSpec{}}
 	w.sec = &fakeSecrets{m: map[string]*secEntry{}, rec: w.rec}
 	w.mgr = &recMgr{FakeManager: nginx.NewFakeManager("/etc/nginx"), files: map[string]string{}}
 	ver := "nginx version: nginx/1.25.3"
@@ -1711,6 +1823,20 @@ func buildFull(c *Case) (*world, error) {
 		}
 		if c.Env.AP {
 			if err := deliver(a.Kind, o); err != nil {
+				return nil, err
+			}
+		}
+	}
+	for _, h := range c.Cluster.DosHops {
+		w.dhop[Dep{h.Kind, h.Key}] = h
+		o := mkDosHop(h.Kind, h.Key, h.OK, 0)
+		if h.Kind == "dospolicy" {
+			_ = w.v.DosPol.Add(o)
+		} else {
+			_ = w.v.DosLog.Add(o)
+		}
+		if c.Env.Dos {
+			if err := deliver(h.Kind, o); err != nil {
 				return nil, err
 			}
 		}
@@ -1777,6 +1903,13 @@ func (w *world) storeEvent(kind, key, op string) (string, interface{}, interface
 	w.gen++
 	g := w.gen
 	ns, name := splitKey(key)
+	// update-invalid / update-valid: an update whose new version is unusable / usable
+	after := func(ok bool) bool { return ok }
+	if op == "update-invalid" {
+		op, after = "update", func(bool) bool { return false }
+	} else if op == "update-valid" {
+		op, after = "update", func(bool) bool { return true }
+	}
 	switch kind {
 	case "secret":
 		e := w.sec.m[key]
@@ -1786,7 +1919,7 @@ func (w *world) storeEvent(kind, key, op string) (string, interface{}, interface
 			_ = w.v.Secrets.Add(cur)
 			return "add", nil, cur, true
 		case "update":
-			old, cur := mkSecretObj(key, e.ok, 0), mkSecretObj(key, e.ok, g)
+			old, cur := mkSecretObj(key, e.ok, 0), mkSecretObj(key, after(e.ok), g)
 			_ = w.v.Secrets.Update(cur)
 			return "update", old, cur, true
 		case "delete":
@@ -1811,7 +1944,7 @@ func (w *world) storeEvent(kind, key, op string) (string, interface{}, interface
 			_ = st.Add(cur)
 			return "add", nil, cur, true
 		case "update":
-			old, cur := mkApObj(kind, key, ok, 0), mkApObj(kind, key, ok, g)
+			old, cur := mkApObj(kind, key, ok, 0), mkApObj(kind, key, after(ok), g)
 			_ = st.Update(cur)
 			return "update", old, cur, true
 		case "delete":
@@ -1871,7 +2004,15 @@ func (w *world) storeEvent(kind, key, op string) (string, interface{}, interface
 			_ = w.v.Policies.Add(cur)
 			return "add", nil, cur, true
 		case "update":
-			old, cur := mkPolicy(spec, 0), mkPolicy(spec, g)
+			nspec := spec
+			if valid := spec.Type != "empty" && spec.Type != "double"; after(valid) != valid {
+				if valid {
+					nspec.Type = "empty" // a spec with no policy field: rejected by ValidatePolicy
+				} else {
+					nspec.Type = "access"
+				}
+			}
+			old, cur := mkPolicy(spec, 0), mkPolicy(nspec, g)
 			tweakPolicy(cur, g)
 			_ = w.v.Policies.Update(cur)
 			return "update", old, cur, !reflect.DeepEqual(old.Spec, cur.Spec)
@@ -1888,13 +2029,35 @@ func (w *world) storeEvent(kind, key, op string) (string, interface{}, interface
 			_ = w.v.DosProt.Add(cur)
 			return "add", nil, cur, true
 		case "update":
-			old, cur := mkDos(spec, 0), mkDos(spec, g)
+			nspec := spec
+			nspec.Valid = after(spec.Valid)
+			old, cur := mkDos(spec, 0), mkDos(nspec, g)
 			cur.Spec.ApDosMonitor = &v1beta1.ApDosMonitor{URI: fmt.Sprintf("mon%d.example.com", g)}
 			_ = w.v.DosProt.Update(cur)
 			return "update", old, cur, true
 		case "delete":
 			old := mkDos(spec, 0)
 			_ = w.v.DosProt.Delete(old)
+			return "delete", old, nil, true
+		}
+	case "dospolicy", "doslogconf":
+		st := w.v.DosPol
+		if kind == "doslogconf" {
+			st = w.v.DosLog
+		}
+		spec := w.dhop[Dep{kind, key}]
+		switch op {
+		case "add":
+			cur := mkDosHop(kind, key, true, g)
+			_ = st.Add(cur)
+			return "add", nil, cur, true
+		case "update":
+			old, cur := mkDosHop(kind, key, spec.OK, 0), mkDosHop(kind, key, after(spec.OK), g)
+			_ = st.Update(cur)
+			return "update", old, cur, true
+		case "delete":
+			old := mkDosHop(kind, key, spec.OK, 0)
+			_ = st.Delete(old)
 			return "delete", old, nil, true
 		}
 	}
@@ -2042,6 +2205,43 @@ func oneEvent(c *Case, resKey, kind, key, op string) (ev EvObs) {
 
 // runEvents: for every object the resource depends on (and a few it does not), deliver the notifications
 // an informer would send for a deletion and an update (or, for a missing object, a creation).
+// usable: for the kinds that can be stored in an unusable state, is the object of the case usable now?
+func usable(c *Case, kind, key string) (ok bool, has bool) {
+	switch kind {
+	case "secret":
+		for _, x := range c.Cluster.Secrets {
+			if x.Key == key {
+				return x.OK, true
+			}
+		}
+	case "appolicy", "aplogconf":
+		for _, x := range c.Cluster.Ap {
+			if x.Kind == kind && x.Key == key {
+				return x.OK, true
+			}
+		}
+	case "dospolicy", "doslogconf":
+		for _, x := range c.Cluster.DosHops {
+			if x.Kind == kind && x.Key == key {
+				return x.OK, true
+			}
+		}
+	case "dos":
+		for _, x := range c.Cluster.Dos {
+			if x.Key == key {
+				return x.Valid, true
+			}
+		}
+	case "policy":
+		for _, x := range c.Cluster.Policies {
+			if x.Ns+"/"+x.Name == key {
+				return x.Type != "empty" && x.Type != "double", true
+			}
+		}
+	}
+	return false, false
+}
+
 func runEvents(c *Case, resKey string, revs []Rev) []EvObs {
 	out := []EvObs{}
 	extra := 2
@@ -2059,6 +2259,13 @@ func runEvents(c *Case, resKey string, revs []Rev) []EvObs {
 			if r.Kind == "service" {
 				ops = append(ops, "update-irrelevant")
 			}
+			if ok, has := usable(c, r.Kind, key); has {
+				if ok {
+					ops = append(ops, "update-invalid") // the new version fails validation
+				} else {
+					ops = append(ops, "update-valid")
+				}
+			}
 		} else if r.Kind != "endpoints" {
 			ops = []string{"add"}
 		} else if sp, ok := findSvc(c, key); ok && !sp.External {
@@ -2067,7 +2274,7 @@ func runEvents(c *Case, resKey string, revs []Rev) []EvObs {
 		if (r.Kind == "appolicy" || r.Kind == "aplogconf") && !c.Env.AP {
 			continue // no informer for these kinds without -enable-app-protect
 		}
-		if r.Kind == "dos" && !c.Env.Dos {
+		if (r.Kind == "dos" || r.Kind == "dospolicy" || r.Kind == "doslogconf") && !c.Env.Dos {
 			continue
 		}
 		for _, op := range ops {
